@@ -354,7 +354,8 @@ func (s *Scn) do(op string) Outcome {
 			return ill
 		}
 		s.tickIf()
-		_, err := s.Store.SyncDB(ctx, s.DBPath, true)
+		// through the control socket, as `litestream sync -wait` does (server.go handleSync -> Store.SyncDB)
+		err := s.syncViaServer(ctx)
 		s.recordLedger()
 		return Outcome{Err: err, Ack: err == nil}
 	case "LC":
